@@ -8,7 +8,7 @@ import (
 	"regexp/syntax"
 	"strings"
 
-	"golang.org/x/tools/go/ssa"
+	"trzszlint/xssa"
 )
 
 func init() {
